@@ -9,7 +9,9 @@ import (
 // oracle stays switched on in every run.
 func (Engine) Generate(r *core.Rng, property, tier string) *core.Plan {
 	p := &core.Plan{Knobs: map[string]int64{}, Meta: map[string]string{}}
-	if property == "C13" {
+	if property == "C13" || property == "C15" && r.Bool(0.25) {
+		// (C15: the transaction cache in front of the store, over histories
+		// with every transaction kind incl. the output-less ones)
 		return genStore(r, p, tier)
 	}
 	if property == "C40" {
